@@ -270,6 +270,8 @@ args = [build(a) for a in spec['args']]
 parts = spec['qualname'].split('.')
 cfn = None
 if spec.get('contract_file'):
+    from vlib.pyvc import dsl as _dsl
+    _dsl.link_sidecars()
     cmod = importlib.import_module('contracts.' + spec['contract_file'][:-3])
     cfn = getattr(cmod, spec['contract_name'])
 from vlib.pyvc import dsl
